@@ -80,6 +80,11 @@ def tok_switch(interp, t, term):
         for l in lits:
             interp.policy.int_cmp(interp, t, l, "Eq")
         return t.val + t.off
+    if t.kind == "C":  # abstract char: exact for comparisons with ASCII literals
+        lits = [int(v) for v, _ in term["targets"]]
+        if any(l >= 0x80 for l in lits):
+            raise Inconclusive("char token matched against non-ASCII literal", interp.where())
+        return t.val
     if t.kind == "N":  # length token: only `== 0` tests
         lits = [int(v) for v, _ in term["targets"]]
         if any(l != 0 for l in lits):
@@ -1414,3 +1419,38 @@ def m_iter_once(interp, args, info):
 @model("into:&str->std::string::String#")
 def _unused(interp, args, info):
     return args[0]
+
+
+def _char_pred(name, f):
+    def m(interp, args, info):
+        v = interp.strip(args[0])
+        if isinstance(v, Tok) and v.kind == "C":
+            v = v.val
+        if not isinstance(v, int):
+            raise Inconclusive("%s on %r" % (name, v), interp.where())
+        return f(v)
+    return m
+
+
+def _alnum(b):
+    return 0x30 <= b <= 0x39 or 0x41 <= b <= 0x5A or 0x61 <= b <= 0x7A
+
+
+# winnow 0.6 `impl AsChar for u8`: is_alphanum = is_alpha || is_dec_digit (ASCII ranges)
+MODELS["<u8 as winnow::stream::AsChar>::is_alphanum"] = _char_pred("u8::is_alphanum", lambda b: _alnum(b & 0xFF))
+MODELS["<u8 as winnow::stream::AsChar>::is_alpha"] = _char_pred("u8::is_alpha", lambda b: 0x41 <= b <= 0x5A or 0x61 <= b <= 0x7A)
+MODELS["<u8 as winnow::stream::AsChar>::is_dec_digit"] = _char_pred("u8::is_dec_digit", lambda b: 0x30 <= b <= 0x39)
+# winnow 0.6 `impl AsChar for char`: the same ASCII ranges on the code point
+MODELS["<char as winnow::stream::AsChar>::is_alphanum"] = _char_pred("char::is_alphanum", _alnum)
+MODELS["<char as winnow::stream::AsChar>::is_alpha"] = _char_pred("char::is_alpha", lambda b: 0x41 <= b <= 0x5A or 0x61 <= b <= 0x7A)
+MODELS["<char as winnow::stream::AsChar>::is_dec_digit"] = _char_pred("char::is_dec_digit", lambda b: 0x30 <= b <= 0x39)
+# core: the is_ascii_* family is false for every non-ASCII char, hence invariant on the abstract classes
+for _n, _f in (("is_ascii_alphanumeric", _alnum), ("is_ascii_digit", lambda b: 0x30 <= b <= 0x39),
+               ("is_ascii_alphabetic", lambda b: 0x41 <= b <= 0x5A or 0x61 <= b <= 0x7A),
+               ("is_ascii_lowercase", lambda b: 0x61 <= b <= 0x7A), ("is_ascii_uppercase", lambda b: 0x41 <= b <= 0x5A),
+               ("is_ascii", lambda b: b < 0x80), ("is_ascii_hexdigit", lambda b: 0x30 <= b <= 0x39 or 0x41 <= b <= 0x46 or 0x61 <= b <= 0x66),
+               ("is_ascii_punctuation", lambda b: 0x21 <= b <= 0x2F or 0x3A <= b <= 0x40 or 0x5B <= b <= 0x60 or 0x7B <= b <= 0x7E),
+               ("is_ascii_whitespace", lambda b: b in (0x20, 0x09, 0x0A, 0x0C, 0x0D))):
+    for _pfx in ("core", "std"):
+        MODELS[_pfx + "::char::methods::<impl char>::" + _n] = _char_pred("char::" + _n, _f)
+        MODELS[_pfx + "::num::<impl u8>::" + _n] = _char_pred("u8::" + _n, lambda b, _f=_f: _f(b & 0xFF))
